@@ -6,9 +6,10 @@ CONSTANTS
   MaxOps = 7
   F2Quirk = FALSE
   KVDupQuirk = FALSE
+  Lossy = {}
   Descs <- MCDescs
   Reasons <- MCReasons
 VIEW View
 INVARIANTS TypeOK NoOverpay StatusTruthful UniqueIds
-PROPERTIES AdmitOnlyWhenOpen InitRefused RefusalIsNoOp SucceededAbsorbing FailedOnlyViaInit AttemptStable OwnHashOnly
+PROPERTIES AdmitOnlyWhenOpen InitRefused RefusalIsNoOp SucceededAbsorbing FailedOnlyViaInit AttemptStable OwnHashOnly RoundTrip AdmitByRegistered
 CHECK_DEADLOCK FALSE
